@@ -77,7 +77,10 @@ check("C16", "model_checking",
       "with instrumented shared arrays; ALL pairs of iterations of every launch are checked for conflicting accesses; ALL "
       "interleavings of 2 and 3 iterations are enumerated by an explicit-state search at load/store granularity (terminal memory "
       "must equal the sequential one bitwise); model schedules with a bounded number of preemptions are replayed on the real "
-      "py_func under a baton scheduler and must reproduce the recorded trace and the predicted memory. C: compiled kernels with "
+      "py_func under a baton scheduler and must reproduce the recorded trace and the predicted memory. B-history: sequences of "
+      "assemblies with 1/2/16 threads on the SAME space objects (depth 2/3, states = set of thread counts used so far + current "
+      "count); the launches of the last step are race-checked pairwise (lazily filled per-space caches must not depend on the thread "
+      "count in force at first use). C: compiled kernels with "
       "1/2/7/16 threads, bitwise equality (sampling, cross-check only).",
       "DESIGN.md 4/C16",
       "Trusted: CPython executes the kernel source with the same data flow as the compiled code (layer C cross-checks); weak memory "
